@@ -20,7 +20,7 @@ from . import c08_ns as NS
 from . import c08_upd as U
 
 PROPERTY = 'C08'
-LEAN_TARGETS = ['CpProofs.C08', 'CpProofs.C08Hist', 'CpProofs.C08Ns', 'CpProofs.C08Upd', 'drv_c08']
+LEAN_TARGETS = ['CpProofs.C08', 'CpProofs.C08Hist', 'CpProofs.C08Ns', 'CpProofs.C08Upd', 'CpProofs.C08Eval', 'drv_c08']
 DRIVER = 'drv_c08'
 THEOREMS = [
     'CpProofs.C08.get_append',
@@ -71,6 +71,22 @@ THEOREMS = [
     'CpProofs.C08.C08_update_later_wins',
     'CpProofs.C08.C08_env_live_all',
     'CpProofs.C08.C08_env_live_production',
+    'CpProofs.C08.C08_call_splat_keeps',
+    'CpProofs.C08.C08_call_keyword_after_splat',
+    'CpProofs.C08.C08_call_keyword_before_splat',
+    'CpProofs.C08.C08_call_symbolic',
+    'CpProofs.C08.C08_call_not_callable',
+    'CpProofs.C08.C08_unrepr_starred',
+    'CpProofs.C08.C08_unrepr_starred_dichotomy',
+    'CpProofs.C08.C08_subscript_index',
+    'CpProofs.C08.C08_subscript_list',
+    'CpProofs.C08.C08_add_str',
+    'CpProofs.C08.C08_add_list',
+    'CpProofs.C08.C08_add_mixed',
+    'CpProofs.C08.C08_sub_str',
+    'CpProofs.C08.C08_mult_int',
+    'CpProofs.C08.C08_mult_seq',
+    'CpProofs.C08.C08_name_lookup_order',
 ]
 LEVEL = 'proof'
 TECHNIQUE = ('Lean 4 proof: set_conf over the object trail refined to a level-by-level declarative merge (induction over the '
@@ -172,6 +188,15 @@ def _lean_val(v):
     raise common.HarnessError('environment value outside the modelled kinds: %r' % (v,))
 
 
+def probe_starred():
+    """Does a `*x` call argument contribute its items (True) or x itself as one argument (False)?"""
+    from cherrypy.lib import reprconf
+    try:
+        return reprconf.unrepr('list(*[(1, 2)])') == [1, 2]
+    except Exception:
+        return False
+
+
 def tables(ctx):
     import cherrypy
     from cherrypy.lib import reprconf
@@ -212,10 +237,13 @@ def appNamespaces : List String := [%s]
 /-- `_cprequest.hookpoints` -/
 def hookPoints : List String := [%s]
 
+/-- does a `*x` call argument contribute its items?  Measured: `unrepr('list(*[(1, 2)])') == [1, 2]`. -/
+def starredSpreads : Bool := %s
+
 end CpModel.Gen.C08
 ''' % (strs(names), 'true' if merged else 'false', 'true' if setconf else 'false',
        strs(list(_cprequest.Request.namespaces)), strs(list(cherrypy.config.namespaces)), strs(app_ns),
-       strs(list(_cprequest.hookpoints)))
+       strs(list(_cprequest.hookpoints)), 'true' if probe_starred() else 'false')
     envs = []
     for name, env in _cpconfig.environments.items():
         envs.append('  (%s.toList, [%s])' % (_lean_str(name), ', '.join('(%s.toList, %s)' % (_lean_str(k), _lean_val(v))
@@ -907,7 +935,15 @@ def canon_ast(n):
     if cls == 'Attribute':
         return 'a%s(%s)' % (T.enc_text(n.attr), canon_ast(n.value))
     if cls == 'Call':
-        return 'C(' + ','.join([canon_ast(n.func)] + ['X' + T.enc_text('Arg')] * (len(n.args) + len(n.keywords))) + ')'
+        parts = [canon_ast(n.func)]
+        for a in n.args:
+            parts.append('R(%s)' % canon_ast(a.value) if a.__class__.__name__ == 'Starred' else canon_ast(a))
+        for kw in n.keywords:
+            parts.append('W(%s)' % canon_ast(kw.value) if kw.arg is None
+                         else 'K%s(%s)' % (T.enc_text(kw.arg), canon_ast(kw.value)))
+        return 'C(' + ','.join(parts) + ')'
+    if cls == 'Subscript':
+        return 'B(%s,%s)' % (canon_ast(n.value), canon_ast(n.slice))
     return 'X' + T.enc_text(cls)
 
 
@@ -1081,17 +1117,211 @@ def rebind_probe(ctx):
         sys.modules.pop('c08_rebind_probe', None)
 
 
+PROBE_MOD = 'c08probe'
+
+
+def install_probe_module():
+    """A module INI values can call into: `f` / `g` answer with exactly the arguments they were given."""
+    import sys
+    import types
+    mod = types.ModuleType(PROBE_MOD)
+
+    def f(*a, **kw):
+        return ('f', a, kw)
+
+    def g(*a, **kw):
+        return ['g', list(a), sorted(kw)]
+    mod.f, mod.g = f, g
+    mod.V = 7
+    mod.L = (1, 2)
+    mod.D = {'a': 1}
+    mod.sub = types.SimpleNamespace(W='w', f=f)
+    prev = sys.modules.get(PROBE_MOD)
+    sys.modules[PROBE_MOD] = mod
+    return prev
+
+
+def remove_probe_module(prev):
+    import sys
+    if prev is None:
+        sys.modules.pop(PROBE_MOD, None)
+    else:
+        sys.modules[PROBE_MOD] = prev
+
+
+class ModelApply(Exception):
+    """evaluating a symbolic application of the model raised"""
+
+
+def py_of_model(s):
+    """The Python object a model value (UnreprIO syntax) denotes: dotted paths are resolved, symbolic
+    applications are carried out with the real function."""
+    pos = [0]
+
+    def atom():
+        i = pos[0]
+        while pos[0] < len(s) and (s[pos[0]].isdigit() or s[pos[0]] in '.-:/'):
+            pos[0] += 1
+        return s[i:pos[0]]
+
+    def items():
+        out = []
+        if s[pos[0]] == ')':
+            pos[0] += 1
+            return out
+        while True:
+            out.append(val())
+            c = s[pos[0]]
+            pos[0] += 1
+            if c == ')':
+                return out
+
+    def val():
+        c = s[pos[0]]
+        pos[0] += 1
+        if c == 'N':
+            return None
+        if c == 'T':
+            return True
+        if c == 'F':
+            return False
+        if c == 'i':
+            return int(atom())
+        if c == 'f':
+            return int(atom()) / 1000.0
+        if c == 'x':
+            re, im = atom().split(':')
+            return complex(int(re) / 1000.0, int(im) / 1000.0)
+        if c == 's':
+            return T.dec_text(atom())
+        if c == 'b':
+            return T.dec_text(atom()).encode('latin-1')
+        if c == 'O':
+            return resolve_dotted('.'.join(T.dec_text(x) for x in atom().split('/')))
+        if c in 'LUDA':
+            pos[0] += 1
+            xs = items()
+            if c == 'L':
+                return xs
+            if c == 'U':
+                return tuple(xs)
+            if c == 'D':
+                return dict(zip(xs[0::2], xs[1::2]))
+            callee, args, kw = xs
+            try:
+                return callee(*args, **kw)
+            except Exception as e:
+                raise ModelApply(e)
+        raise ValueError('bad model value %r at %d' % (s, pos[0]))
+    v = val()
+    if pos[0] != len(s):
+        raise ValueError('trailing text in model value %r' % s)
+    return v
+
+
+def same_value(a, b):
+    return a is b or deep_same(a, b)
+
+
+def _unsign_zero(v):
+    """-0.0 -> 0.0 (the model's decimals carry no sign of zero)"""
+    if isinstance(v, float):
+        return v + 0.0 if v != 0 else 0.0
+    if isinstance(v, complex):
+        return complex(_unsign_zero(v.real), _unsign_zero(v.imag))
+    if isinstance(v, list):
+        return [_unsign_zero(x) for x in v]
+    if isinstance(v, tuple):
+        return tuple(_unsign_zero(x) for x in v)
+    if isinstance(v, dict):
+        return {k: _unsign_zero(x) for k, x in v.items()}
+    return v
+
+
+def same_value_model(real, model):
+    return same_value(real, model) or same_value(_unsign_zero(real), _unsign_zero(model))
+
+
+def has_dup_keys(tree):
+    for n in ast.walk(tree):
+        if isinstance(n, ast.Dict):
+            keys = []
+            for k in n.keys:
+                if k is None:
+                    return True
+                try:
+                    kv = ast.literal_eval(k)
+                except Exception:
+                    continue
+                if any(kv == x for x in keys):
+                    return True
+                keys.append(kv)
+    return False
+
+
+def supported_by_builder(tree, reprconf):
+    """every node class of the expression has a `build_<Class>` method (call plumbing aside)"""
+    for n in ast.walk(tree):
+        cls = n.__class__.__name__
+        if cls in ('Load', 'keyword', 'Starred'):
+            continue
+        if cls == 'Dict' and any(k is None for k in n.keys):
+            return False
+        if not hasattr(reprconf._Builder, 'build_' + cls):
+            return False
+    return True
+
+
+def expr_oracle(ctx, case, text, got, reprconf):
+    """An expression the builder has methods for evaluates to what Python evaluates it to."""
+    import os as _os
+    import string as _string
+    import sys
+    try:
+        tree = ast.parse(text, mode='eval')
+    except SyntaxError:
+        return
+    glob = {'os': _os, 'string': _string, PROBE_MOD: sys.modules.get(PROBE_MOD)}
+    try:
+        want = eval(text, glob)
+    except Exception:
+        return                      # Python rejects it: nothing is promised
+    starred = any(isinstance(n, ast.Starred) for n in ast.walk(tree))
+    if got[0] == 'ok':
+        if not same_value(got[1], want):
+            ctx.oracle_fail(case, 'unrepr(%r) = %r, Python evaluates the same expression to %r' % (text, got[1], want),
+                            'unrepr_starred_args' if starred else 'unrepr_wrong_value')
+    elif supported_by_builder(tree, reprconf):
+        ctx.oracle_fail(case, 'unrepr(%r) raises (%s), Python evaluates the same expression to %r' % (text, got[1], want),
+                        'unrepr_starred_args' if starred else 'unrepr_rejects_supported')
+
+
 def check_literal_cases(ctx, cases, compare_model=True):
-    """cases: {'lit': {'text': str, 'kind': 'value'|'dotted'|'hand'}}"""
+    """cases: {'lit': {'text': str, 'kind': 'value'|'dotted'|'hand'|'eval'|'expr'|'rebind'}}"""
     from cherrypy.lib import reprconf
     lines = []
     meta = []
+    import warnings
+    prev_probe = install_probe_module()
+    try:
+        with warnings.catch_warnings():
+            warnings.simplefilter('ignore', SyntaxWarning)       # "'int' object is not callable; perhaps you missed a comma?"
+            _check_literal_cases(ctx, cases, compare_model, reprconf, lines, meta)
+    finally:
+        remove_probe_module(prev_probe)
+
+
+def _check_literal_cases(ctx, cases, compare_model, reprconf, lines, meta):
     if len(cases) > 1:
         rebind_probe(ctx)
+        check_name_origin(ctx, compare_model)
     for case in cases:
         text, kind = case['lit']['text'], case['lit']['kind']
         if kind == 'rebind':
             rebind_probe(ctx)
+            continue
+        if kind == 'name':
+            check_name_origin(ctx, compare_model)
             continue
         ctx.case(case, nontrivial=True, key='lit:' + text)
         ctx.count('lit:' + kind)
@@ -1099,20 +1329,12 @@ def check_literal_cases(ctx, cases, compare_model=True):
             got = ('ok', reprconf.unrepr(text))
         except Exception as e:
             got = ('err', classify_exc(e))
-        if got[0] == 'ok' and kind != 'dotted':
+        if got[0] == 'ok' and kind != 'dotted' and PROBE_MOD not in text:      # (the module's own objects are shared by design)
             bad = shared_object_probe(reprconf, text)
             if bad:
                 ctx.oracle_fail(case, bad, 'unrepr_shared_object')
-        if kind == 'eval' and got[0] == 'ok':
-            import os as _os
-            try:
-                want = eval(text, {'os': _os})
-            except Exception:
-                want = None
-            else:
-                if not (deep_same(got[1], want) or got[1] is want):
-                    ctx.oracle_fail(case, 'unrepr(%r) = %r, Python evaluates the same expression to %r'
-                                    % (text, got[1], want), 'unrepr_wrong_value')
+        if kind in ('eval', 'expr'):
+            expr_oracle(ctx, case, text, got, reprconf)
         # --- oracle: the INI value evaluates to the same Python object as the equivalent dict value ---
         if kind in ('value', 'dotted'):
             try:
@@ -1121,7 +1343,6 @@ def check_literal_cases(ctx, cases, compare_model=True):
             except Exception:
                 have_want = False
             if have_want:
-                has_set = isinstance(want, (set, frozenset))
                 if got[0] != 'ok':
                     sig = 'unrepr_rejects:' + got[1]
                     ctx.oracle_fail(case, 'unrepr(%r) raises (%s) although it is the repr of the literal value %r'
@@ -1146,6 +1367,9 @@ def check_literal_cases(ctx, cases, compare_model=True):
             a = canon_ast(tree)
         except (SyntaxError, ValueError):
             continue
+        if has_dup_keys(tree):
+            ctx.count('lit:dict_display_with_repeated_keys')
+            continue
         env = ';'.join('/'.join(T.enc_text(x) for x in p) for p in resolve_env(text)) or '-'
         lines.append('build %s %s' % (a, env))
         meta.append((case, got, kind, a))
@@ -1169,30 +1393,121 @@ def check_literal_cases(ctx, cases, compare_model=True):
         if mline == 'err notModelled':
             ctx.count('lit:model_notModelled')
             continue
+        if mline == 'bad-op':
+            raise common.HarnessError('the driver could not parse the AST %s of %r' % (a, case['lit']['text']))
         ctx.compared()
-        if got[0] == 'ok':
-            if kind == 'dotted' or not mline.startswith('ok '):
-                want = None
-                if mline.startswith('ok O'):
-                    path = [T.dec_text(x) for x in mline[4:].split('/')]
-                    try:
-                        want = resolve_dotted('.'.join(path))
-                    except Exception:
-                        want = None
-                    if want is got[1]:
-                        continue
-                ctx.disagree(case, repr(got[1]), mline, 'unrepr result differs')
-                continue
+        if mline.startswith('ok '):
             try:
-                cv = canon_val(got[1])
-            except ValueError:
-                ctx.count('lit:outside_value_model')
-                continue
-            if 'ok ' + cv != mline:
-                ctx.disagree(case, cv, mline, 'unrepr result differs')
+                mv = ('ok', py_of_model(mline[3:]))
+            except ModelApply as e:
+                mv = ('err', classify_exc(e.args[0]))
+            except Exception as e:
+                raise common.HarnessError('model value %s of %r does not denote a Python object: %r' % (mline, case['lit']['text'], e))
         else:
-            if mline != 'err ' + got[1]:
-                ctx.disagree(case, got[1], mline, 'unrepr error differs')
+            mv = ('err', mline[4:])
+        if got[0] != mv[0]:
+            ctx.disagree(case, repr(got), mline, 'unrepr outcome differs (accepted / raised)')
+        elif got[0] == 'ok':
+            if not same_value_model(got[1], mv[1]):
+                ctx.disagree(case, repr(got[1]), mline, 'unrepr result differs')
+        elif got[1] != mv[1]:
+            ctx.disagree(case, got[1], mline, 'unrepr error differs')
+
+
+def check_name_origin(ctx, compare_model=True):
+    """`build_Name`: the three keywords, then an importable module of that name, then a builtin.  A stand-in module
+    named like a builtin shows the order."""
+    import builtins
+    import importlib.util
+    import sys
+    import types
+    from cherrypy.lib import reprconf
+    fake = {'abs': types.ModuleType('abs'), 'c08shadow': types.ModuleType('c08shadow')}
+    saved = {n: sys.modules.get(n) for n in fake}
+    sys.modules.update(fake)
+    lines, meta = [], []
+    try:
+        for name in ['abs', 'c08shadow', 'len', 'os', 'string', 'None', 'True', 'False', 'nosuch_zz', 'builtins', 'int', 'Ellipsis']:
+            case = {'lit': {'text': name, 'kind': 'name'}}
+            ctx.case(case, nontrivial=True, key='name:' + name)
+            try:
+                v = reprconf._Builder().build(ast.parse(name, mode='eval').body)
+                if name in ('None', 'True', 'False'):
+                    got = 'K' if v is eval(name) else '?'
+                elif isinstance(v, types.ModuleType):
+                    got = 'M'
+                elif v is getattr(builtins, name, object()):
+                    got = 'B'
+                else:
+                    got = '?'
+            except TypeError:
+                got = '-'
+            except Exception as e:
+                got = 'other:' + type(e).__name__
+            try:
+                imp = name in sys.modules or importlib.util.find_spec(name) is not None
+            except (ImportError, ValueError):
+                imp = False
+            lines.append('nameorigin %s %d %d' % (T.enc_text(name), 1 if imp else 0, 1 if hasattr(builtins, name) else 0))
+            meta.append((case, got))
+    finally:
+        for n, m in saved.items():
+            if m is None:
+                sys.modules.pop(n, None)
+            else:
+                sys.modules[n] = m
+    if not compare_model:
+        return
+    out = ctx.model(lines)
+    if out is None:
+        return
+    for (case, got), mline in zip(meta, out):
+        ctx.compared()
+        if got != mline:
+            ctx.disagree(case, got, mline, 'where build_Name finds the name differs')
+
+
+# random expressions over the node classes the builder evaluates (and some it does not)
+EXPR_ATOMS = ['1', '2', '-2', '0', '2.5', "'ab'", "'k'", "b'xy'", 'None', 'True', '[1, 2]', "(1, 'a')", "{'k': 1, 'j': [2]}",
+              '()', '[]', '{}', PROBE_MOD + '.V', PROBE_MOD + '.L', PROBE_MOD + '.D', 'os.sep', 'len', 'nosuch', 'string.digits',
+              PROBE_MOD + '.sub.W', "{1: 'x', 2: 'y'}", '3j']
+# (callees that answer for any arguments: a symbolic application of the model is carried out afterwards, so a
+# callee that raises half-way through an expression would hide what the builder does with the rest)
+EXPR_CALLEES = [PROBE_MOD + '.f', PROBE_MOD + '.f', PROBE_MOD + '.g', PROBE_MOD + '.sub.f', 'dict', 'dict', 'list', 'tuple',
+                PROBE_MOD + '.nosuch', '3', "'s'"]
+EXPR_INDEX = ['0', '1', '-1', '5', '-3', 'True', "'k'", "'zz'", 'None', '1:2', '0.5', '2', "'j'"]
+
+
+def gen_expr(rng, depth=0):
+    r = rng.random()
+    if depth >= 3 or r < 0.28:
+        return rng.choice(EXPR_ATOMS)
+    if r < 0.55:
+        parts = []
+        for _ in range(rng.choice([0, 1, 1, 2, 3])):
+            if rng.random() < 0.18:
+                parts.append('*' + rng.choice(['[1, 2]', "('a', 'b')", '[]', gen_expr(rng, depth + 1)]))
+            else:
+                parts.append(gen_expr(rng, depth + 1))
+        for _ in range(rng.choice([0, 0, 1, 1, 2])):
+            q = rng.random()
+            if q < 0.6:
+                parts.append('%s=%s' % (rng.choice(['a', 'b', 'k']), gen_expr(rng, depth + 1)))
+            elif q < 0.9:
+                parts.append('**' + rng.choice(["{'a': 1}", "{'a': 2, 'b': 3}", '{}', "{1: 2}", PROBE_MOD + '.D',
+                                                'dict(k=5)', '[1]', '7']))
+            else:
+                parts.append('**' + gen_expr(rng, depth + 1))
+        return '%s(%s)' % (rng.choice(EXPR_CALLEES), ', '.join(parts))
+    if r < 0.7:
+        return '%s[%s]' % (gen_expr(rng, depth + 1), rng.choice(EXPR_INDEX))
+    if r < 0.85:
+        return '(%s %s %s)' % (gen_expr(rng, depth + 1), rng.choice(['+', '+', '-', '*', '*', '/', '%']), gen_expr(rng, depth + 1))
+    if r < 0.9:
+        return '-(%s)' % gen_expr(rng, depth + 1)
+    if r < 0.95:
+        return '[%s]' % ', '.join(gen_expr(rng, depth + 1) for _ in range(rng.choice([1, 2])))
+    return "{'k': %s}" % gen_expr(rng, depth + 1)
 
 
 def gen_literal_cases(rng, n):
@@ -1206,6 +1521,8 @@ def gen_literal_cases(rng, n):
     for _ in range(n):
         v = gen_value(rng)
         cases.append({'lit': {'text': repr(v), 'kind': 'value'}})
+    for _ in range(n // 2):
+        cases.append({'lit': {'text': gen_expr(rng), 'kind': 'expr'}})
     return cases
 
 
